@@ -230,62 +230,112 @@ theorem finish_wf (w : World) (i : Int) (sp : Bool) (h : w.WF) : (finishPlayer w
   · exact wf_of_entities_eq w _ rfl h
   · exact h
 
-/-- keys and stored ids agree in every reachable world -/
-theorem step_wf (cfg : Config) (w : World) (p : Packet) (hwf : w.WF) : (step cfg w p).world.WF := by
+theorem playerCreate_preserves (P : World → Prop) (hput : ∀ w e, P w → P (w.put e))
+    (hent : ∀ w w' : World, w'.entities = w.entities → P w → P w')
+    (cfg : Config) (w : World) (id : Int) (v : Bytes) (b sp wp : Bool) (hwf : P w) :
+    P (playerCreate cfg w id v b sp wp).world := by
+  have hfin : ∀ (w : World) (i : Int) (sp : Bool), P w → P (finishPlayer w i sp) := by
+    intro w i sp h; unfold finishPlayer; split
+    · exact hent w _ rfl h
+    · exact h
+  unfold playerCreate
+  cases w.get? id with
+  | some ent =>
+    simp only
+    cases (fillPlayer ent v b wp).2 with
+    | some e => exact hput w _ hwf
+    | none => exact hfin _ _ _ (hput w _ hwf)
+  | none =>
+    simp only
+    cases cfg.defs.byName "Avatar" with
+    | error e => exact hwf
+    | ok d =>
+      simp only
+      cases (fillPlayer (Entity.new cfg.masks id d) v b wp).2 with
+      | some e => exact hwf
+      | none => exact hfin _ _ _ (hput w _ hwf)
+
+/-- any property of the entity table that `put` preserves is preserved by every step -/
+theorem step_preserves (P : World → Prop) (hput : ∀ w e, P w → P (w.put e))
+    (hent : ∀ w w' : World, w'.entities = w.entities → P w → P w')
+    (cfg : Config) (w : World) (p : Packet) (hwf : P w) : P (step cfg w p).world := by
+  have hfin : ∀ (w : World) (i : Int) (sp : Bool), P w → P (finishPlayer w i sp) := by
+    intro w i sp h; unfold finishPlayer; split
+    · exact hent w _ rfl h
+    · exact h
   unfold step
   split
   all_goals first
     | exact hwf
-    | exact wf_of_entities_eq w _ rfl hwf
+    | exact hent w _ rfl hwf
     | (unfold stepLookup; split <;> exact hwf)
-    | (unfold playerCreate
-       split
-       · simp only; split
-         · exact World.put_wf w _ hwf
-         · exact finish_wf _ _ _ (World.put_wf w _ hwf)
-       · split
-         · exact hwf
-         · simp only; split
-           · exact hwf
-           · exact finish_wf _ _ _ (World.put_wf w _ hwf))
+    | exact playerCreate_preserves P hput hent cfg w _ _ _ _ _ hwf
     | (unfold stepEntityCreate
        split
        · exact hwf
        · split
          · exact hwf
          · simp only; split
-           · exact wf_of_entities_eq w _ rfl hwf
+           · exact hent w _ rfl hwf
            · split
-             · exact World.put_wf _ _ (wf_of_entities_eq w _ rfl hwf)
-             · exact wf_of_entities_eq w _ rfl hwf)
+             · exact hput _ _ (hent w _ rfl hwf)
+             · exact hent w _ rfl hwf)
     | (unfold stepEntityProperty
        split
        · exact hwf
-       · simp only; split <;> exact wf_of_entities_eq (w.put _) _ rfl (World.put_wf w _ hwf))
+       · simp only; split <;> exact hent (w.put _) _ rfl (hput w _ hwf))
     | (unfold stepEntityMethod
        split
        · exact hwf
-       · exact wf_of_entities_eq w _ rfl hwf)
+       · exact hent w _ rfl hwf)
     | (unfold stepNested
        split
        · exact hwf
        · split
          · exact hwf
          · exact hwf
-         · simp only; split <;> exact wf_of_entities_eq (w.put _) _ rfl (World.put_wf w _ hwf))
+         · simp only; split <;> exact hent (w.put _) _ rfl (hput w _ hwf))
     | (unfold stepPosition; split
        · exact hwf
-       · exact World.put_wf w _ hwf)
+       · exact hput w _ hwf)
     | (unfold stepPlayerPosition
        split
        · split
-         · simp only; split <;> exact World.put_wf w _ hwf
+         · simp only; split <;> exact hput w _ hwf
          · exact hwf
        · split
          · split
-           · exact World.put_wf w _ hwf
+           · exact hput w _ hwf
            · exact hwf
          · exact hwf)
+
+/-- keys and stored ids agree in every reachable world -/
+theorem step_wf (cfg : Config) (w : World) (p : Packet) (hwf : w.WF) : (step cfg w p).world.WF :=
+  step_preserves World.WF (fun w e h => World.put_wf w e h)
+    (fun w w' he h => wf_of_entities_eq w w' he h) cfg w p hwf
+
+/-- ids in the table are pairwise different -/
+def NodupIds (w : World) : Prop := (w.entities.map (·.1)).Nodup
+
+theorem put_nodup (w : World) (e : Entity) (h : NodupIds w) : NodupIds (w.put e) := by
+  unfold NodupIds at *
+  rw [World.put_ids]
+  split
+  · exact h
+  · rename_i hn
+    rw [List.nodup_append]
+    refine ⟨h, by simp, ?_⟩
+    intro a ha b hb
+    simp only [List.mem_singleton] at hb
+    subst hb
+    intro hab
+    apply hn
+    obtain ⟨x, hx, hxa⟩ := List.mem_map.mp ha
+    simp only [List.any_eq_true, beq_iff_eq]
+    exact ⟨x, hx, by rw [hxa, hab]⟩
+
+theorem step_nodup (cfg : Config) (w : World) (p : Packet) (h : NodupIds w) : NodupIds (step cfg w p).world :=
+  step_preserves NodupIds put_nodup (fun w w' he h => by unfold NodupIds at *; rw [he]; exact h) cfg w p h
 
 theorem stepNet_wf (jsonOk : Bytes → Bool) (cfg : Config) (w : World) (np : NetPacket) (hwf : w.WF) :
     (stepNet jsonOk cfg w np).world.WF := by
